@@ -41,8 +41,6 @@ package getput
 
 //@ func dht/exts/getput.Put@seqToPut
 //@   trusted
-//@ func (*dht/k-nearest-nodes.Type).Range
-//@   trusted
 //@ func dht/exts/getput.Put
 //@   requires nonnil: s != nil && ctx != nil && seqToPut != nil
 //@   modifies *
